@@ -80,7 +80,7 @@ func TestC38(t *testing.T) {
 	defer rec.Flush(t)
 	rec.Assume("ECDSA and SHA-2 of the standard library are trusted", "ECDSA signature malleability (r, n-s) is a property of the scheme and not a mutation of this list")
 	muts := []string{"none", "none", "rechunk_ad", "flip_header_body", "flip_signature", "flip_ad", "drop_ad", "extend_ad", "reorder_ad", "other_key_same_curve", "key_other_curve", "ed25519_key", "algorithm_other_hash", "algorithm_unknown", "truncate_signature", "empty_signature", "append_to_signature"}
-	req := []string{"curve_P-256", "curve_P-384", "curve_P-521", "verified", "with_timestamp"}
+	req := []string{"curve_P-256", "curve_P-384", "curve_P-521", "verified", "with_timestamp", "shared_buffer", "sign_refused_unknown_algorithm"}
 	for _, m := range muts[2:] {
 		req = append(req, "mut_"+m)
 	}
@@ -106,7 +106,22 @@ func TestC38(t *testing.T) {
 			labels = append(labels, "with_timestamp")
 		}
 		body := rapid.SliceOfN(rapid.Byte(), 0, 200).Draw(rt, "body")
+		if rapid.IntRange(0, 9).Draw(rt, "signWithUnknownAlgorithm") == 0 {
+			hdr.SignatureAlgorithm = signed.SignatureAlgorithm(rapid.SampledFrom([]int{0, 4, 77}).Draw(rt, "unknownAlgorithm"))
+		}
 		msg, err := signed.Sign(hdr, body, key, ad...)
+		if hdr.SignatureAlgorithm < signed.ECDSAWithSHA256 || hdr.SignatureAlgorithm > signed.ECDSAWithSHA512 {
+			// an algorithm that does not exist: either signing is refused, or what it produces must
+			// not verify (the reference below knows only the three ECDSA algorithms)
+			if err != nil {
+				rec.Case(true, fmt.Sprintf("sign refused for algorithm %d", hdr.SignatureAlgorithm), "sign_refused_unknown_algorithm")
+				return
+			}
+			if _, verr := signed.Verify(msg, key.Public(), ad...); verr == nil {
+				rt.Fatalf("a message signed with the non-existent algorithm %d verifies", int(hdr.SignatureAlgorithm))
+			}
+			return
+		}
 		if err != nil {
 			rt.Fatalf("sign: %v", err)
 		}
@@ -178,8 +193,35 @@ func TestC38(t *testing.T) {
 		case "append_to_signature":
 			vmsg.Signature = append(vmsg.Signature, rapid.SliceOfN(rapid.Byte(), 1, 16).Draw(rt, "trailing")...)
 		}
+		sharedBuffer := rapid.IntRange(0, 2).Draw(rt, "sharedBuffer") == 0
+		if sharedBuffer {
+			// header-and-body, signature and associated data lie back to back in one buffer (as after
+			// slicing a received frame): verification must not write to any of them
+			buf := make([]byte, 0, len(vmsg.HeaderAndBody)+len(vmsg.Signature)+total+64)
+			buf = append(buf, vmsg.HeaderAndBody...)
+			nh := len(buf)
+			buf = append(buf, vmsg.Signature...)
+			ns := len(buf)
+			vmsg.HeaderAndBody, vmsg.Signature = buf[:nh], buf[nh:ns]
+			for i := range vad {
+				buf = append(buf, vad[i]...)
+				vad[i] = buf[len(buf)-len(vad[i]):]
+			}
+			labels = append(labels, "shared_buffer")
+		}
+		snapshot := func() []byte {
+			out := append(append([]byte{}, vmsg.HeaderAndBody...), vmsg.Signature...)
+			for _, d := range vad {
+				out = append(out, d...)
+			}
+			return out
+		}
+		before := snapshot()
 		want := c38RefVerify(vmsg, vkey, vad)
 		got, err := signed.Verify(vmsg, vkey, vad...)
+		if !bytes.Equal(before, snapshot()) {
+			rt.Fatalf("Verify modified the message or the associated data it was given (shared buffer: %v, mutation %s)", sharedBuffer, m)
+		}
 		desc := fmt.Sprintf("curve=%s alg=%v mutation=%s ad=%d chunks/%d B body=%d B", curves[ci].Params().Name, hdr.SignatureAlgorithm, m, len(ad), total, len(body))
 		if (err == nil) != want {
 			rt.Fatalf("Verify returned %v, reference verification says %v (%s)", err, want, desc)
